@@ -107,6 +107,25 @@ namespace vt
         friend bool operator<=(const GR& a, const GR& b) { return a.id <= b.id; }
         friend bool operator>=(const GR& a, const GR& b) { return a.id >= b.id; }
     };
+    // An alternative with its own (ADL) swap that can throw although its moves cannot - a swap written with copies.  Two
+    // variants holding this alternative are swapped through it, and its exception has to come out of variant::swap.
+    struct SW
+    {
+        uint64_t id;
+        explicit SW(uint64_t v) : id(v) { sim::fault_point(sim::FK_THROW); sim::registry().on_construct(this, 9, id, false); }
+        SW(const SW& o) : id(o.id) { sim::fault_point(sim::FK_THROW); sim::registry().on_construct(this, 9, id, false); }
+        SW(SW&& o) noexcept : id(o.id) { sim::registry().on_construct(this, 9, id, false); }
+        SW& operator=(const SW& o) { sim::fault_point(sim::FK_THROW); id = o.id; return *this; }
+        SW& operator=(SW&& o) noexcept { id = o.id; return *this; }
+        ~SW() { sim::registry().on_destroy(this, 9); }
+        friend void swap(SW& a, SW& b) { sim::fault_point(sim::FK_THROW); uint64_t t = a.id; a.id = b.id; b.id = t; sim::stats().add("c05.adl_swap_of_alternative_called"); }
+        friend bool operator==(const SW& a, const SW& b) { return a.id == b.id; }
+        friend bool operator!=(const SW& a, const SW& b) { return a.id != b.id; }
+        friend bool operator<(const SW& a, const SW& b) { return a.id < b.id; }
+        friend bool operator>(const SW& a, const SW& b) { return a.id > b.id; }
+        friend bool operator<=(const SW& a, const SW& b) { return a.id <= b.id; }
+        friend bool operator>=(const SW& a, const SW& b) { return a.id >= b.id; }
+    };
     static_assert(std::is_trivially_destructible<TT>::value, "TT must be trivially destructible");
     static_assert(std::is_trivially_copy_assignable<DA>::value && !std::is_trivially_copy_constructible<DA>::value, "DA: trivial assignment, non-trivial copy");
 }
@@ -192,6 +211,14 @@ namespace
     struct MoveOutVisitor
     {
         template <class T> uint64_t operator()(T&& x) const { typename std::decay<T>::type y(std::forward<T>(x)); return Visitor1()(y).second; }
+    };
+    struct MoveSecondVisitor
+    {
+        template <class A, class B> std::pair<uint64_t, uint64_t> operator()(const A& a, B&& b) const
+        {
+            typename std::decay<B>::type y(std::forward<B>(b));
+            return {Visitor1()(a).second, Visitor1()(y).second};
+        }
     };
     struct BigVisitor
     {
@@ -452,6 +479,7 @@ namespace
             try
             {
                 if (move) slot[t].get() = std::move(slot[src].get());
+                else if (st.b & 4) slot[t].get() = slot[src].get();                 // non-const lvalue source
                 else slot[t].get() = static_cast<const V&>(slot[src].get());
             }
             catch (const Injected&) { threw = true; }
@@ -619,6 +647,20 @@ namespace
             bool any_valueless = model[i0].valueless || (n >= 2 && model[i1].valueless) || (n >= 3 && model[i2].valueless);
             Scope sc(*this, st, n == 1 ? "visit1" : (n == 2 ? "visit2" : "visit3"), any_valueless ? "some_valueless" : "all_engaged");
             Suspend s;
+            if (n == 2 && (st.d & 1) && i1 != i0 && !any_valueless && model[i1].index >= 1 && model[i1].index <= 4 && !model[i1].moved)
+            {
+                // the second of two visited variants is an rvalue: every variant keeps its own value category, so a visitor
+                // that forwards its second argument moves that alternative out - no copy constructor runs
+                uint64_t copies = registry().copies;
+                std::pair<uint64_t, uint64_t> r = xtl::visit(MoveSecondVisitor(), static_cast<const V&>(slot[i0].get()), std::move(slot[i1].get()));
+                if (registry().copies != copies) viol("model", "visit-category", "visit(f, v, std::move(w)) passed w's alternative as an lvalue: the forwarding visitor copied it");
+                if (r.first != model[i0].id || r.second != model[i1].id) viol("model", "visit", "visit over (lvalue, rvalue) passed other values than the variants hold");
+                model[i1].moved = true;
+                SIM_PROBE("rvalue_variant_visited_as_second");
+                ++run.changing;
+                check_all();
+                return;
+            }
             std::vector<std::pair<size_t, uint64_t>> got;
             bool threw = false;
             try
@@ -897,7 +939,17 @@ namespace
         static const char* xname() { return "GR"; }
         static const char* yname() { return "DB"; }
     };
+    struct SetSwap
+    {
+        using X = SW; using Y = DB;
+        static constexpr bool tracked = true;
+        static X mkx(uint64_t id) { return X(id); }
+        static uint64_t idx(const X& x) { return x.id; }
+        static const char* xname() { return "SW"; }
+        static const char* yname() { return "DB"; }
+    };
     template <class S> struct reg_tag_x { static constexpr int value = 5; };
+    template <> struct reg_tag_x<SetSwap> { static constexpr int value = 9; };
     template <> struct reg_tag_x<SetGreedy> { static constexpr int value = 8; };
     template <> struct reg_tag_x<SetConverting> { static constexpr int value = 7; };
 
@@ -1041,8 +1093,8 @@ namespace
         void op_construct(const Step& st)
         {
             int t = st.actor % 3;
-            static const char* const vn[] = {"default", "in_place_index", "converting_lvalue", "converting_rvalue", "copy", "move", "copy_const_rvalue"};
-            unsigned v = static_cast<unsigned>(st.d % 7);
+            static const char* const vn[] = {"default", "in_place_index", "converting_lvalue", "converting_rvalue", "copy", "move", "copy_const_rvalue", "copy_nonconst_lvalue"};
+            unsigned v = static_cast<unsigned>(st.d % 8);
             size_t alt = static_cast<size_t>(st.a % 3);
             int src = (t + 1 + static_cast<int>(st.c % 2)) % 3;
             std::string var = std::string(vn[v]) + ((v >= 1 && v <= 3) ? std::string("_") + alt_name(alt) : (v >= 4 ? "_from_" + name_of(model[src]) : std::string()));
@@ -1064,6 +1116,7 @@ namespace
                 case 3: with_alt(alt, [&](auto I) { auto val = quiet(I, id); new (p) SV(std::move(val)); }); break;
                 case 4: new (p) SV(static_cast<const SV&>(slot[src].get())); want = pre_src; break;
                 case 6: new (p) SV(std::move(static_cast<const SV&>(slot[src].get()))); want = pre_src; break;
+                case 7: new (p) SV(slot[src].get()); want = pre_src; break;
                 default: new (p) SV(std::move(slot[src].get())); want = pre_src; break;
                 }
             }
@@ -1088,6 +1141,7 @@ namespace
             {
                 if (move) slot[t].get() = std::move(slot[src].get());
                 else if (const_rvalue) slot[t].get() = std::move(static_cast<const SV&>(slot[src].get()));
+                else if (st.b & 4) { slot[t].get() = slot[src].get(); SIM_PROBE("assigned_from_nonconst_lvalue_variant"); }     // a non-const lvalue: still the copy assignment
                 else slot[t].get() = static_cast<const SV&>(slot[src].get());
             }
             catch (const Injected&) { threw = true; }
@@ -1300,4 +1354,5 @@ namespace
     RegisterCfg reg_c("int_double_TT_trivially_destructible", gen, exec_small<SmallWorld<SetTrivial>>, 1, false);
     RegisterCfg reg_d("int_NA_DB_converting_assignment", gen_conv, exec_small<SmallWorld<SetConverting>>, 1, false);
     RegisterCfg reg_e("int_GR_DB_alternative_constructible_from_anything", gen, exec_small<SmallWorld<SetGreedy>>, 1, false);
+    RegisterCfg reg_f("int_SW_DB_alternative_with_throwing_swap", gen, exec_small<SmallWorld<SetSwap>>, 1, false);
 }
